@@ -49,7 +49,7 @@ def read_v1(path):
     out = {}
     order = []
     for r in s3.residues:
-        key = (r.chain, r.number, r.icode)
+        key = (r.chain.strip(), r.number, r.icode)  # a blank chain column reads ' ' here and '' in the table-level reader
         out[key] = {"name": r.name, "atoms": sorted((a.name, a.x, a.y, a.z) for a in r.atoms), "obj": r}
         order.append(key)
     return out, order, len(s3.residues)
@@ -64,7 +64,7 @@ def read_v2(path):
     st = Structure(df)
     out = {}
     for r in st.residues:
-        key = (r.chain_id, r.residue_number, r.insertion_code)
+        key = (str(r.chain_id).strip(), r.residue_number, r.insertion_code)
         out[key] = {"name": r.residue_name, "atoms": sorted((a.name, float(a.coordinates[0]), float(a.coordinates[1]), float(a.coordinates[2])) for a in r.atoms_list), "obj": r}
     return out, st, len(st.residues)
 
@@ -139,7 +139,7 @@ def connectivity_checks(tag, v1, order, v2, st2, out, info):
                     cur = [k]
             if len(cur) > 1:
                 want_segments.append(cur)
-        got_segments = [[(r.chain_id, r.residue_number, r.insertion_code) for r in seg] for seg in st2.connected_residues]
+        got_segments = [[(str(r.chain_id).strip(), r.residue_number, r.insertion_code) for r in seg] for seg in st2.connected_residues]
         if sorted(map(tuple, got_segments)) != sorted(map(tuple, want_segments)):
             out.append(D(f"C15:{tag}:segments", f"connected segments {got_segments[:3]} vs expected {want_segments[:3]}"))
 
@@ -149,7 +149,7 @@ def chi_checks(tag, v1, st2, out, info):
     for _, row in ta.iterrows():
         ic = row["insertion_code"]
         ic = None if (ic is None or (isinstance(ic, float) and math.isnan(ic))) else ic
-        key = (row["chain_id"], int(row["residue_number"]), ic)
+        key = (str(row["chain_id"]).strip(), int(row["residue_number"]), ic)
         chi2 = row["chi"]
         if key not in v1:
             continue
